@@ -63,6 +63,9 @@ class WordDomain(RingDomain):
         self.splits = {}
         self.ranges = {}            # symbol -> inclusive upper bound
         self.divs = {}
+        self.defs = []              # (symbol, kind, defining polynomial, parameter) in creation order: lets a residual be evaluated on concrete inputs
+        self.origin = {}            # carry / borrow symbol -> the instruction (or source position) that introduced it
+        self.note = ""
         self.borrows = {}
         self.facts = []             # (Poly, lo, hi): lo <= Poly <= hi  -- range facts of truncated values, for the relational bound prover
         self.use_z3 = False         # relational bounds: before introducing a carry symbol, ask z3 (QF_LIA over the facts) whether the value fits
@@ -102,13 +105,15 @@ class WordDomain(RingDomain):
             lo, c = self.split(WVal(Poly({m: c // g for m, c in v.p.t.items()}), v.hi >> j), w - j)
             lo = wv(lo)
             return simp(WVal(lo.p * g, lo.hi * g)), c
-        key = (repr(v.p), w)
+        key = (v.p, w)
         if key not in self.splits and self.use_z3 and v.hi < (top << 1) and self.prove_lt(v.p, top):
             # the value provably fits (relational bound over the recorded facts): no carry
             self.splits[key] = (WVal(v.p, top - 1, v.parts), 0)
         if key not in self.splits:
             self.ncarry += 1
             name = "c#%d" % self.ncarry
+            self.defs.append((name, "carry", v.p, w))
+            self.origin[name] = self.note
             self.ranges[name] = v.hi >> w
             c = WVal(Poly.var(name), v.hi >> w)
             lo = WVal(v.p - c.p * top, top - 1)
@@ -181,13 +186,18 @@ class WordDomain(RingDomain):
         if a.p.is_const() and b.p.is_const():
             x = a.p.const_value() - b.p.const_value()
             return x % (1 << 64), 1 if x < 0 else 0
+        if b.p.is_const() and b.p.const_value() == 1 and self.refine(a).hi <= 1:
+            # flag - 1: borrows exactly when the flag is 0 (the "set carry from a 0/1 register" idiom): no new symbol
+            return simp(WVal((Poly.const(1) - a.p) * ((1 << 64) - 1), (1 << 64) - 1)), simp(WVal(Poly.const(1) - a.p, 1))
         diff = a.p - b.p
-        key = repr(diff)
+        key = diff
         if key not in self.borrows and self.use_z3 and self.prove_lt(-diff, 1):
             self.borrows[key] = (WVal(diff, a.hi), 0)
         if key not in self.borrows:
             self.ncarry += 1
             name = "b#%d" % self.ncarry
+            self.defs.append((name, "borrow", diff, 64))
+            self.origin[name] = self.note
             self.ranges[name] = 1
             bw = WVal(Poly.var(name), 1)
             d = WVal(diff + bw.p * (1 << 64), (1 << 64) - 1)
@@ -257,6 +267,22 @@ class WordDomain(RingDomain):
                 found.append(v)
         return found
 
+    def evaluate(self, polys, inputs):
+        """values of polynomials for concrete input words: every carry / borrow / quotient symbol is computed from its definition"""
+        env = dict(inputs)
+        for (name, kind, p, par) in self.defs:
+            missing = [v for v in p.vars() if v not in env]
+            if missing:
+                raise KeyError("evaluate: no value for %s (needed by %s)" % (missing[:3], name))
+            v = p.eval(env)
+            if kind == "carry":
+                env[name] = v >> par
+            elif kind == "borrow":
+                env[name] = 1 if v < 0 else 0
+            else:
+                env[name] = v // par
+        return [p.eval(env) for p in polys], env
+
     def add_fact(self, p, lo, hi):
         self.facts.append((p, lo, hi))
 
@@ -284,12 +310,12 @@ class WordDomain(RingDomain):
         if op == "+":
             r = self.fit(WVal(a.p + b.p, a.hi + b.hi), ts)
             if isinstance(r, WVal) and a.hi + b.hi >= (1 << self.width(ts)):
-                self.sums[repr(r.p)] = (a, b, self.split(WVal(a.p + b.p, a.hi + b.hi), self.width(ts))[1])
+                self.sums[r.p] = (a, b, self.split(WVal(a.p + b.p, a.hi + b.hi), self.width(ts))[1])
             return r
         if op in ("<", ">", ">=", "<="):
             # carry-detect idiom: s = x + y truncated; (s < x) == (s < y) == carry out
             s_, o_ = (a, b) if op in ("<", ">=") else (b, a)
-            ent = self.sums.get(repr(s_.p))
+            ent = self.sums.get(s_.p)
             if ent is not None and any(o_.p == z.p for z in ent[:2]):
                 c = wv(ent[2])
                 return c if op in ("<", ">") else simp(WVal(Poly.const(1) - c.p, 1))
@@ -302,10 +328,11 @@ class WordDomain(RingDomain):
             a = self.refine(a)
             if a.hi < y:
                 return 0 if op == "/" else simp(a)
-            key = (repr(a.p), y)
+            key = (a.p, y)
             if key not in self.divs:
                 self.ncarry += 1
                 name = "q#%d" % self.ncarry
+                self.defs.append((name, "quot", a.p, y))
                 self.ranges[name] = a.hi // y
                 qv = WVal(Poly.var(name), a.hi // y)
                 self.divs[key] = (qv, WVal(a.p - qv.p * y, y - 1))     # Euclidean division: a == q*y + r, 0 <= r < y (the C definition)
@@ -355,7 +382,7 @@ class WordDomain(RingDomain):
 
     def refine(self, v):
         if isinstance(v, WVal):
-            b = self.bounds.get(repr(v.p))
+            b = self.bounds.get(v.p)
             if b is not None and b < v.hi:
                 return WVal(v.p, b, v.parts)
         return v
@@ -407,7 +434,7 @@ class WordDomain(RingDomain):
                 c = y.p.const_value()
                 nb = {"<": c - 1, "<=": c, "==": c}.get(o)
                 if nb is not None:
-                    k = repr(x.p)
+                    k = x.p
                     self.bounds[k] = min(self.bounds.get(k, x.hi), nb)
         return out
 
